@@ -217,6 +217,7 @@ def replay_walk(arg):
             o2, x2 = build(pair[1], u)
         objs = {1: (pair[0], o1, x1), 2: (pair[1], o2, x2)}
         objfixed = {1: False, 2: False}
+        kept = []
         data_hash = digest([u['obs'][0].tolist(), u['obs'][1].tolist(), u['times'][0].tolist(), u['times'][1].tolist()])
     except Exception as e:
         fail('Construct', type(e).__name__, repr(e))
@@ -268,6 +269,7 @@ def replay_walk(arg):
             _, o, k = s
             kind, obj, x = objs[o]
             got = evaluate(kind, obj, x, k)
+            kept.append((got, np.array(got, copy=True), step))          # results are values: checked again at the end
             exp = expected(kind, k, fixed=objfixed[o])
             cnt['evaluations'] = cnt.get('evaluations', 0) + 1
             if got.shape != exp.shape or not np.allclose(got, exp, rtol=1e-9, atol=1e-10):
@@ -277,6 +279,10 @@ def replay_walk(arg):
         except Exception as e:
             fail('Pure', type(e).__name__, dict(error=repr(e)), step)
             return fails, cnt
+    for ref_, cp_, st_ in kept:
+        if not np.array_equal(ref_, cp_, equal_nan=True):
+            fail('Pure', 'earlier_result_changed_later', dict(step=st_))
+            break
     if data_hash is not None and data_hash != digest([u['obs'][0].tolist(), u['obs'][1].tolist(), u['times'][0].tolist(),
                                                       u['times'][1].tolist()]):
         fail('NoInputWrite', 'data_arrays_modified', None)
